@@ -52,6 +52,7 @@ macro_rules! for_each_family {
         go!(families::ConflictPointFam { vals: items });
         go!(families::PairFam { items: items - 1, vals: items });
         go!(uf::UfFam::new(items));
+        go!(uf::UfChainFam { n: std::env::var("VERIF_UF_CHAIN_ITEMS").ok().and_then(|s| s.parse().ok()).unwrap_or(items + 2) });
     }};
 }
 
@@ -70,9 +71,11 @@ fn run_c04(rep: &mut Report) {
     rep.assume("future behaviour of an object depends only on its representation type and full revealed contents (dedup fingerprint); hash-table layout/capacity is not observable");
     rep.assume("union-find receivers are those reachable from the empty forest by union/merge/same/lattice_from (always forests); UnionFind::new on a rho-shaped parent map makes find() spin forever and is outside the explored space; merged-in `other` values are ALL parent maps over the domain (merge only iterates them)");
     rep.assume("VecMap/ArrayMap deltas have distinct keys; DomPair keys are totally ordered (Max<u8>); Point only merges equal values (stated preconditions)");
+    rep.assume("UnionFind-chains section: 5 (quick) / 6 (thorough) items, alphabet union(a,b) for all ordered pairs, same(a,b) for all unordered pairs, merge(SingletonMap a->b) for all ordered pairs, both growable backings, explored to closure (no depth bound); union's returned bool is compared with 'the items were in different classes'; the longest find path among reachable states is reported as max_state_metric and must be items-1");
     rep.assume("HashMap-typed union-find deltas iterate in a per-process random order: they are executed and judged at every state but not expanded; every order is expanded through VecMap deltas");
     rep.bound("items", b.items);
     rep.bound("history_depth", b.depth);
+    rep.bound("union_find_chain_items", b.items + 2);
     rep.bound("hang_budget_ms", guard::hang_budget().as_millis() as u64);
     let mut infos = vec![];
     for_each_family!(b.items, None, |f| {
@@ -82,7 +85,7 @@ fn run_c04(rep: &mut Report) {
         info["wall_s"] = json!(t0.elapsed().as_secs_f64());
         info["states"] = json!(r.st.states);
         info["transitions"] = json!(r.st.transitions);
-        println!("  C04 {:<28} states={:<6} transitions={:<9} closed={} levels={} ({:.1}s)", f.name(), r.st.states, r.st.transitions, info["state_space_closed"], info["new_states_per_level"], t0.elapsed().as_secs_f64());
+        println!("  C04 {:<28} states={:<6} transitions={:<9} closed={} levels={} max_metric={} ({:.1}s)", f.name(), r.st.states, r.st.transitions, info["state_space_closed"], info["new_states_per_level"], info["max_state_metric"], t0.elapsed().as_secs_f64());
         infos.push(info);
         rep.section(&f.name(), r.st);
     });
